@@ -33,11 +33,32 @@ Definition post_logd_iid (s2 : R) (dm : list (R * R)) (ps2 : R) (xmu : list (R *
 Definition post_logd_diag (dms : list ((R * R) * R)) (ps2 : R) (xmu : list (R * R)) : R :=
   gauss_diag_logpdf dms + gauss_iid_logpdf ps2 xmu.
 
+(* string phantoms of _getExactSolution with transcendental values; t = the mesh point linspace(-1,1,dim)[i] *)
+Definition ph_gauss_R (p t : R) : R := exp (- ((p * t) * (p * t))).
+Definition ph_sinc_R (p t : R) : R := sin (PI * (p * t)) / (PI * (p * t)).           (* t <> 0; np.sinc(0) = 1 *)
+Definition ph_vonmises_R (p t tm : R) : R := exp (p * (cos (PI * t) - cos (PI * tm))).  (* tm = mesh point of the maximum *)
+(* bumps: grid point g = i + 1/2, h = pi/dim *)
+Definition ph_bumps_R (dim g : R) : R :=
+  exp (- 12 * ((- PI / 2 + g * (PI / dim) - 8 / 10) * (- PI / 2 + g * (PI / dim) - 8 / 10)))
+  + 1 / 2 * exp (- 5 * ((- PI / 2 + g * (PI / dim) + 1 / 2) * (- PI / 2 + g * (PI / dim) + 1 / 2))).
+(* derivGauss: diff of the Gauss phantom on dim+1 points, divided by its maximum (attained between ta and tb) *)
+Definition ph_dgauss_R (p t0 t1 ta tb : R) : R :=
+  (ph_gauss_R p t1 - ph_gauss_R p t0) / (ph_gauss_R p tb - ph_gauss_R p ta).
+
 Ltac c17_red :=
   cbv [gauss_psf_R gauss_w rsum map fold_right nth legacy_gauss_R legacy_vonmises_R legacy_sinc_R
-       sq ssq gauss_iid_logpdf gauss_diag_logpdf post_logd_iid post_logd_diag fst snd length INR].
+       sq ssq gauss_iid_logpdf gauss_diag_logpdf post_logd_iid post_logd_diag fst snd length INR
+       ph_gauss_R ph_sinc_R ph_vonmises_R ph_bumps_R ph_dgauss_R].
 Ltac c17_encl := c17_red; interval with (i_prec 90).
 
 (* WangCubic over R (same two lines as the Qc model in C17_TP.v) *)
 Definition cubic_forward_R (x0 x1 : R) : R := 10 * x1 - 10 * (x0 * x0 * x0) + 5 * (x0 * x0) + 6 * x0.
 Definition cubic_jacobian_R (x0 x1 : R) : R * R := (- 30 * (x0 * x0) + 10 * x0 + 6, 10).
+
+(* Abel1D as coded: tvec = linspace(h/2, endpoint - h/2, N) (= h/2 + j h), svec = tvec + h/2,
+   A[i,j] = h / sqrt(|s_i - t_j|) where t_j < s_i, else 0 *)
+Definition abel_t (h : R) (j : nat) : R := h / 2 + INR j * h.
+Definition abel_s (h : R) (i : nat) : R := abel_t h i + h / 2.
+Definition abel_entry_R (n : nat) (ep : R) (i j : nat) : R :=
+  let h := ep / INR n in
+  if Rlt_dec (abel_t h j) (abel_s h i) then h / sqrt (Rabs (abel_s h i - abel_t h j)) else 0.
